@@ -42,6 +42,10 @@
 //! `part` lines are answered by the Lean model too (Winter/Model/Parallel.lean through drv_c14): the output of
 //! the line is what the concurrent build was OBSERVED to do, the model prints what the theorems are about.
 //!
+//! The end-to-end family includes, by construction, AIRs whose per-fragment work depends on the GLOBAL row (periodic columns with
+//! cycles of 2, n/2, n rows read by main / auxiliary / both kinds of transition constraints, sequence assertions, Lagrange kernel
+//! column on/off) for constraint-evaluation domains of 4096 (one fragment) to 32768 rows.
+//!
 //! Output of the other lines: `ok <sections> <fnv of the reference sections>` (the Lean driver answers `-`).
 //!
 //! Sites: c14.<area>.mismatch (a section differs), c14.<area>.panic (only one of the builds panics),
@@ -868,7 +872,12 @@ fn compute(t: &[&str]) -> Option<Sections> {
 /// `c14 compute <op tokens>`: print the sections of the op line as computed by this build
 fn cmd_compute(args: &[String]) {
     install_quiet_panic_hook();
-    let t: Vec<&str> = args.iter().map(|s| s.as_str()).collect();
+    // `compute @<file>`: the op line is read from a file (descriptions with long periodic columns exceed the size of an argument)
+    let from_file: Option<String> = args.first().and_then(|a| a.strip_prefix('@')).and_then(|f| std::fs::read_to_string(f).ok());
+    let t: Vec<&str> = match &from_file {
+        Some(text) => text.split(' ').filter(|x| !x.trim().is_empty()).map(|x| x.trim()).collect(),
+        None => args.iter().map(|s| s.as_str()).collect(),
+    };
     let out = std::io::stdout();
     let mut w = out.lock();
     match guarded(|| compute(&t)) {
@@ -916,9 +925,13 @@ fn run_alt(alt: &str, t: &[&str], threads: usize, timeout: Duration) -> Child {
         Ok(f) => f,
         Err(e) => return Child::Died(format!("cannot create {}: {}", path.display(), e)),
     };
+    let op_path = std::env::temp_dir().join(format!("c14-{}-{}.op", std::process::id(), seq));
+    if let Err(e) = std::fs::write(&op_path, t.join(" ")) {
+        return Child::Died(format!("cannot create {}: {}", op_path.display(), e));
+    }
     let spawned = Command::new(alt)
         .arg("compute")
-        .args(t)
+        .arg(format!("@{}", op_path.display()))
         .env("RAYON_NUM_THREADS", threads.to_string())
         .stdin(Stdio::null())
         .stdout(Stdio::from(file))
@@ -928,6 +941,7 @@ fn run_alt(alt: &str, t: &[&str], threads: usize, timeout: Duration) -> Child {
         Ok(c) => c,
         Err(e) => {
             let _ = std::fs::remove_file(&path);
+            let _ = std::fs::remove_file(&op_path);
             return Child::Died(format!("cannot run {}: {}", alt, e));
         },
     };
@@ -948,6 +962,7 @@ fn run_alt(alt: &str, t: &[&str], threads: usize, timeout: Duration) -> Child {
     };
     let text = std::fs::read_to_string(&path).unwrap_or_default();
     let _ = std::fs::remove_file(&path);
+    let _ = std::fs::remove_file(&op_path);
     let Some(status) = status else { return Child::Hang };
     let mut v = vec![];
     for l in text.lines() {
@@ -1255,6 +1270,58 @@ fn wide_desc(width: usize, n: usize, ruled: usize, aux: usize, lagrange: bool) -
             cols: acols,
             constraints: acons,
             assertions: vec![AuxAssertDesc { a: AssertDesc::single(0, 0), value: Expr::Const(1) }],
+        });
+    }
+    d
+}
+
+/// two main columns and (optionally) an auxiliary segment around ONE periodic column of the given cycle length, read by the
+/// main transition constraints (`main_reads`), by the auxiliary ones (`aux_reads`) or by both — so that what a fragment of the
+/// constraint evaluation table computes depends on the GLOBAL row it starts at; `seq`: a sequence assertion of 8 values
+/// (boundary values depending on the row) on the second column
+fn periodic_desc(n: usize, cycle: usize, main_reads: bool, aux: bool, aux_reads: bool, lagrange: bool, seq: bool) -> AirDesc {
+    let periodic: Vec<Vec<u128>> = vec![(0..cycle).map(|i| (i as u128 * 2654435761 + 12345) % (1 << 40) + 1).collect()];
+    let cycles = vec![cycle];
+    let e0 = if main_reads {
+        Expr::add(Expr::mul(Expr::Cur(0), Expr::Cur(1)), Expr::mul(Expr::Per(0), Expr::Cur(1)))
+    } else {
+        Expr::add(Expr::mul(Expr::Cur(0), Expr::Cur(1)), Expr::Const(3))
+    };
+    let e1 = Expr::add(Expr::Cur(1), Expr::Cur(0));
+    let c0 = Expr::sub(Expr::Nxt(0), e0.clone());
+    let c1 = Expr::sub(Expr::Nxt(1), e1.clone());
+    let mut assertions = vec![AssertDesc::single(0, 0), AssertDesc::single(1, n - 1)];
+    if seq {
+        assertions.push(AssertDesc::sequence(1, 1, n / 8));
+    }
+    let mut d = AirDesc {
+        width: 2,
+        trace_len: n,
+        exemptions: 1,
+        tail_junk: false,
+        periodic,
+        cols: vec![ColGen::Step { init: None, expr: e0 }, ColGen::Step { init: None, expr: e1 }],
+        constraints: vec![Constraint { degree: c0.degree(&cycles, n), expr: c0 }, Constraint { degree: c1.degree(&cycles, n), expr: c1 }],
+        assertions,
+        aux: None,
+    };
+    if aux {
+        let (r0, r1) = (Expr::Rand(0), Expr::Rand(1));
+        let (init, step) = if aux_reads {
+            // running sum with a periodic selector: s' = s + p * c0 * r0, s_0 = r1
+            (r1.clone(), Expr::add(Expr::AuxCur(0), Expr::mul(Expr::mul(Expr::Per(0), Expr::Cur(0)), r0.clone())))
+        } else {
+            // running product z' = z * (c0 + r0), z_0 = 1
+            (Expr::Const(1), Expr::mul(Expr::AuxCur(0), Expr::add(Expr::Cur(0), r0.clone())))
+        };
+        let c = Expr::sub(Expr::AuxNxt(0), step.clone());
+        d.aux = Some(AuxDesc {
+            width: 1 + lagrange as usize,
+            num_rands: 2,
+            lagrange,
+            cols: vec![AuxGen::Acc { init: init.clone(), step }],
+            constraints: vec![Constraint { degree: c.degree(&cycles, n), expr: c }],
+            assertions: vec![AuxAssertDesc { a: AssertDesc::single(0, 0), value: init }],
         });
     }
     d
@@ -1687,6 +1754,46 @@ impl Prop for P {
             let hash = *rng.pick(&HashId::for_field(field));
             let o = OptSpec::new(5, b, 0, 1, fo, rem);
             emit(format!("{} {} r=1", prove_line(field, hash, &o, rng.u64() % 1000, &desc), tl(&ts)));
+        }
+        // ---- per-fragment code paths on data that depends on the GLOBAL row: periodic columns with cycles of 2, n/2 and n rows
+        //      (longer than a fragment of the evaluation table) read by the main constraints, by the auxiliary ones and by
+        //      both; main-only and main+aux segments, Lagrange kernel column on/off, sequence assertions; constraint-evaluation
+        //      domains of 4096 (one fragment), 8192, 16384 and 32768 rows; pools of 2, 3, 4 and 16 threads
+        {
+            // (trace length, cycle, main reads, aux segment, aux reads, lagrange, sequence assertion)
+            let mut cases: Vec<(usize, usize, bool, bool, bool, bool, bool)> = vec![
+                (2048, 2048, true, true, true, false, false),
+                (4096, 4096, false, true, true, false, false),
+                (4096, 2048, true, true, true, true, true),
+                (4096, 2, false, true, true, false, true),
+                (4096, 4096, true, false, false, false, true),
+                (4096, 4096, true, true, false, true, false),
+                (8192, 8192, false, true, true, false, false),
+                (8192, 4096, true, false, false, false, false),
+                (16384, 16384, true, true, true, false, false),
+            ];
+            if !quick {
+                cases.push((8192, 8192, true, true, true, true, true));
+                cases.push((16384, 8192, false, true, true, true, false));
+                cases.push((16384, 2, true, false, false, false, true));
+                cases.push((2048, 1024, false, true, true, true, true));
+            }
+            let combos = [
+                (FieldId::F64, HashId::Blake3_256, 1u8),
+                (FieldId::F128, HashId::Blake3_192, 1),
+                (FieldId::F64, HashId::Rp64_256, 2),
+                (FieldId::F62, HashId::Sha3_256, 1),
+                (FieldId::F64, HashId::Sha3_256, 3),
+            ];
+            for (k, (nn, cy, mr, ax, ar, lg, sq)) in cases.into_iter().enumerate() {
+                let desc = periodic_desc(nn, cy, mr, ax, ar, lg, sq);
+                let (field, hash, x) = combos[k % combos.len()];
+                let x = if field.supports_ext(x) { x } else { 1 };
+                let b = if k % 3 == 2 { 4 } else { 2 };
+                let o = OptSpec::new(4, b, 0, x, 8, 31);
+                let ts = if quick { "t=2,3,4,16 r=1" } else { "t=2,3,4,5,16,33,64 r=1" };
+                emit(format!("{} {}", prove_line(field, hash, &o, rng.u64() % 1000, &desc), ts));
+            }
         }
         for (field, hash, o, d) in &e2e {
             line(prove_line(*field, *hash, o, rng.u64() % 1000, d), emit);
